@@ -11,8 +11,8 @@ import (
 // assertions) over one expression.
 type SwitchInfo struct {
 	Node       ast.Node
-	Subject    types.Type       // static type of the switched expression
-	Cases      map[string]bool  // short type names of the case types ("Object" for *Object); "nil" for case nil
+	Subject    types.Type      // static type of the switched expression
+	Cases      map[string]bool // short type names of the case types ("Object" for *Object); "nil" for case nil
 	Clauses    map[string]*ast.CaseClause
 	HasDefault bool
 	Default    *ast.CaseClause
